@@ -54,6 +54,16 @@ def _exists(path: Path) -> bool:
         return False
 
 
+def _parse_decimal(text: str) -> int:
+    """
+    The numbers of a file name are plain decimal numbers. ``int()`` alone also takes signs, surrounding blanks,
+    underscores between digits and non-ASCII digits, none of which belong into a port-ID or a version number.
+    """
+    if not (text.isascii() and text.isdigit()):
+        raise ValueError(f"Not a decimal number: {text!r}")
+    return int(text)
+
+
 class DSDLDefinition(ReadableDSDLFile):
     """
     A DSDL type definition source abstracts the filesystem level details away, presenting a higher-level
@@ -238,7 +248,7 @@ class DSDLDefinition(ReadableDSDLFile):
         # Parsing the fixed port ID, if specified; None if not
         if str_fixed_port_id is not None:
             try:
-                self._fixed_port_id: int | None = int(str_fixed_port_id)
+                self._fixed_port_id: int | None = _parse_decimal(str_fixed_port_id)
             except ValueError:
                 raise FileNameFormatError(
                     "Not a valid fixed port-ID: %s. "
@@ -252,7 +262,7 @@ class DSDLDefinition(ReadableDSDLFile):
 
         # Parsing the version numbers
         try:
-            self._version = Version(major=int(str_major_version), minor=int(str_minor_version))
+            self._version = Version(major=_parse_decimal(str_major_version), minor=_parse_decimal(str_minor_version))
         except ValueError:
             raise FileNameFormatError("Could not parse the version numbers", path=self._file_path) from None
 
